@@ -391,6 +391,7 @@ def _recording_writer():
         class Rec(lua.LuaFormatterWriter):
             calls = None
             link = None      # [(index of the token that follows a non-empty run, _indent passed with the run)]
+            order = None     # [(start, end)] of the calls with a non-empty run, in call order
 
             def _get_code_for_spaces(self, node):
                 start = self._pos
@@ -400,9 +401,33 @@ def _recording_writer():
                                bytes(run), bytes(res)))
                 if Rec.link is not None and self._pos > start and self._pos < len(self._tokens):
                     Rec.link.append((self._pos, self._indent))
+                if Rec.order is not None and self._pos > start:
+                    Rec.order.append((start, self._pos))
                 return res
         _REC['cls'] = Rec
     return _REC['cls']
+
+
+def _chunk_hypotheses(tokens, order):
+    """the hypotheses of C10_indent_partial / C10_shape_partial observed on a real run: -> None | what fails
+    separated: two non-empty white-space runs are never consumed without a code token between them;
+    no_end: a run that reaches the end of the token list is the last one; codes_ok: a code token's text is not
+    empty, does not begin with a line feed, does not end in a blank or a line feed"""
+    from pico8.lua import lexer
+    prev_end = None
+    for k, (a, b) in enumerate(order):
+        if prev_end is not None and a <= prev_end:
+            return 'separated: runs [..%d) and [%d..%d) are adjacent' % (prev_end, a, b)
+        if b == len(tokens) and k != len(order) - 1:
+            return 'no_end: a run reaching the end is followed by another'
+        prev_end = b
+    for t in tokens:
+        if isinstance(t, (lexer.TokSpace, lexer.TokNewline, lexer.TokComment)):
+            continue
+        c = bytes(t.code)
+        if not c or c[0] == 10 or c[-1] in (32, 10):
+            return 'codes_ok: token code %r' % c[:20]
+    return None
 
 
 def _short_if_token_ranges(root):
@@ -432,6 +457,7 @@ def luafmt(src, w, record=None, link=None):
         cls = _recording_writer()
         cls.calls = record
         cls.link = [] if link is not None else None
+        cls.order = [] if link is not None else None
     try:
         l = lua.Lua.from_lines([src], version=8)
         out = b''.join(l.to_lines(writer_cls=cls, writer_args={'indentwidth': w}))
@@ -440,6 +466,7 @@ def luafmt(src, w, record=None, link=None):
             for k, ch in enumerate(src):
                 if ch == 10:
                     starts.append(k + 1)
+            link.append(('hyp', _chunk_hypotheses(l.tokens, cls.order)))
             short = _short_if_token_ranges(l.root)
             for idx, ind in cls.link:
                 t = l.tokens[idx]
@@ -766,6 +793,15 @@ def run_cases(cases, ctx):
         reqs, owners = [], []
         for c, o in zip(cases, obs):
             if c['kind'] == 'prog' and o['outs'][0][0] == 'OK' and o.get('link'):
+                hyp = [p[1] for p in o['link'] if p[0] == 'hyp']
+                o['link'] = [p for p in o['link'] if p[0] != 'hyp']
+                for h in hyp:
+                    bump('chunk-hypotheses(separated,no_end,codes_ok):' + ('hold' if h is None else 'FAIL ' + h))
+                    if h is not None and not any(d.get('summary', {}).get('kind') == 'hyp' for d in disagreements):
+                        disagreements.append({'case': c, 'summary': {'kind': 'hyp'},
+                                              'difference': 'a hypothesis of C10_indent_partial fails on a real luafmt run: ' + h})
+                if not o['link']:
+                    continue
                 reqs.append('link %s %s' % (c['srcs'][0], ','.join('%d:%d' % (p[0], p[1]) for p in sorted(set(o['link'])))))
                 owners.append((c, o))
         ans = lib.run_driver_parallel(ctx['monitor_exe'], reqs) if reqs else []
